@@ -68,7 +68,7 @@ impl Prop for C09 {
     fn stages(&self, tier: Tier) -> Vec<Stage<Case>> {
         let s = (gen::file_spec(tier), vec(any::<u16>(), 60), vec(gen::probe(), 20))
             .prop_map(|(spec, picks, probes)| Case { spec, picks, probes });
-        vec![stage("files", s, tier.pick(2500, 80_000)).shrink(800)]
+        vec![stage("files", s, tier.pick(2500, 30_000)).shrink(800)]
     }
 
     fn rule(&self) -> String {
